@@ -5,6 +5,11 @@ np.cos / np.sin / np.exp / np.sqrt / np.pi / 1j / numbers / the parameters) is t
 Lean definition over ℂ, parameters being real numbers.  Also extracted: the name -> function
 chain of `Gate.get_compact_qobj` and, for every gate class of gateclass.py, the function its
 `get_compact_qobj` returns, plus GATE_CLASS_MAP — as Lean tables of call specifications.
+Class methods that return a literal matrix themselves (RZX) and the function `cphase`, which builds its
+result as `tensor(list1) + tensor(list2)`, are translated into Gen/GateExtra.lean (the latter by evaluating the
+straight-line construction on its default arguments N=2, control=0, target=1 — the only way both lookup paths
+call it).  Gen/GatePaths.lean gets one `path_<NAME>` theorem for EVERY name both paths offer (a name that cannot
+be translated is a TranslatorError, not a silent skip) and the name sets of the paths.
 The package is NOT imported: the source text of the working tree is parsed with `ast`."""
 import ast, os
 from fractions import Fraction
@@ -18,6 +23,12 @@ FUNCS = ["x_gate", "y_gate", "cy_gate", "z_gate", "cz_gate", "s_gate", "cs_gate"
 SKIP_ARGS = {"N", "target", "targets", "control", "controls"}
 QUTIP_CONST = {"sigmax": ("2", "!![0, 1; 1, 0]"), "sigmay": ("2", "!![0, -Complex.I; Complex.I, 0]"),
                "sigmaz": ("2", "!![1, 0; 0, -1]")}
+# qutip constructors with literal arguments used by list-built gates: (call, args) -> (dim, ℂ term, float term)
+BUILT_CONST = {("identity", (2,)): (2, "(1 : Matrix (Fin 2) (Fin 2) ℂ)", "CF.ident2"),
+               ("qeye", (2,)): (2, "(1 : Matrix (Fin 2) (Fin 2) ℂ)", "CF.ident2"),
+               ("fock_dm", (2, 0)): (2, "(!![1, 0; 0, 0] : Matrix (Fin 2) (Fin 2) ℂ)", "CF.fock0"),
+               ("fock_dm", (2, 1)): (2, "(!![0, 0; 0, 1] : Matrix (Fin 2) (Fin 2) ℂ)", "CF.fock1")}
+BUILT_FUNCS = ["cphase"]
 
 
 class Tr:
@@ -187,11 +198,199 @@ def translate_gates():
     return known, defs, defsF
 
 
-def name_chain():
-    """`if self.name == "RX": qobj = rx(self.arg_value)` chain of Gate.get_compact_qobj -> {name: call spec}"""
+def translate_built(fn, known, mode):
+    """A gate function that builds its result as `L = [identity(2)] * N; L[i] = …; return tensor(L1) + tensor(L2)`
+    (cphase): the straight-line construction is evaluated on the DEFAULT values of its integer arguments
+    (N=2, control=0, target=1 — the canonical call both lookup paths make).  Guards (`if …: raise / warn`) must be
+    false on those values.  -> (dim, params, term)"""
+    args, defaults = fn.args.args, fn.args.defaults
+    nreq = len(args) - len(defaults)
+    params = [a.arg for a in args[:nreq]]
+    consts = {}
+    for a, d in zip(args[nreq:], defaults):
+        if isinstance(d, ast.Constant) and isinstance(d.value, int) and not isinstance(d.value, bool):
+            consts[a.arg] = d.value
+        else:
+            raise TranslatorError(f"{fn.name}: default of {a.arg} is not an integer literal")
+    tr = Tr(params, known, mode)
+    env = {}
+
+    def cint(e):
+        if isinstance(e, ast.Constant) and isinstance(e.value, int) and not isinstance(e.value, bool):
+            return e.value
+        if isinstance(e, ast.Name) and e.id in consts:
+            return consts[e.id]
+        raise TranslatorError(f"{fn.name}: integer expression " + ast.dump(e)[:60])
+
+    def ctest(e):
+        if isinstance(e, ast.BoolOp):
+            vs = [ctest(v) for v in e.values]
+            return any(vs) if isinstance(e.op, ast.Or) else all(vs)
+        if isinstance(e, ast.Compare) and len(e.ops) == 1:
+            a, b = cint(e.left), cint(e.comparators[0])
+            op = type(e.ops[0])
+            table = {ast.Eq: a == b, ast.NotEq: a != b, ast.Lt: a < b, ast.LtE: a <= b, ast.Gt: a > b, ast.GtE: a >= b}
+            if op in table:
+                return table[op]
+        raise TranslatorError(f"{fn.name}: guard " + ast.dump(e)[:60])
+
+    def mat(e):
+        if isinstance(e, ast.Name) and e.id in env and env[e.id][0] == "mat":
+            return env[e.id][1], env[e.id][2]
+        if isinstance(e, ast.BinOp) and isinstance(e.op, ast.Add):
+            (dl, l), (dr, r) = mat(e.left), mat(e.right)
+            if dl != dr:
+                raise TranslatorError(f"{fn.name}: sum of matrices of different size")
+            return dl, (f"({l} + {r})" if mode == "C" else f"(CF.madd {l} {r})")
+        if isinstance(e, ast.Call) and isinstance(e.func, ast.Name):
+            f = e.func.id
+            if f == "tensor" and len(e.args) == 1 and isinstance(e.args[0], ast.Name) \
+                    and env.get(e.args[0].id, ("",))[0] == "list":
+                items = env[e.args[0].id][1]
+                if len(items) != 2 or any(d != 2 for d, _ in items):
+                    raise TranslatorError(f"{fn.name}: tensor of other than two qubits")
+                (_, a), (_, b) = items
+                return 4, (f"(QipVerif.GateKron.kron2 {a} {b})" if mode == "C" else f"(CF.kron2 {a} {b})")
+            if all(isinstance(a, ast.Constant) for a in e.args) and (f, tuple(a.value for a in e.args)) in BUILT_CONST:
+                d, c, fl = BUILT_CONST[(f, tuple(a.value for a in e.args))]
+                return d, (c if mode == "C" else fl)
+        return tr.matrix(e)
+
+    result = None
+    for st in fn.body:
+        if isinstance(st, ast.Expr) and isinstance(st.value, ast.Constant):
+            continue                                               # docstring
+        if isinstance(st, ast.If):
+            if ctest(st.test) or st.orelse:
+                raise TranslatorError(f"{fn.name}: a guard holds on the canonical arguments")
+            continue
+        if isinstance(st, ast.Assign) and len(st.targets) == 1:
+            t, v = st.targets[0], st.value
+            if isinstance(t, ast.Name) and isinstance(v, ast.BinOp) and isinstance(v.op, ast.Mult) \
+                    and isinstance(v.left, ast.List) and len(v.left.elts) == 1:
+                env[t.id] = ("list", [mat(v.left.elts[0])] * cint(v.right))
+                continue
+            if isinstance(t, ast.Subscript) and isinstance(t.value, ast.Name) and env.get(t.value.id, ("",))[0] == "list":
+                items = list(env[t.value.id][1])
+                i = cint(t.slice)
+                if not 0 <= i < len(items):
+                    raise TranslatorError(f"{fn.name}: list index out of range")
+                items[i] = mat(v)
+                env[t.value.id] = ("list", items)
+                continue
+            if isinstance(t, ast.Name):
+                d, m = mat(v)
+                env[t.id] = ("mat", d, m)
+                continue
+        if isinstance(st, ast.Return):
+            result = mat(st.value)
+            break
+        raise TranslatorError(f"{fn.name}: statement " + ast.dump(st)[:80])
+    if result is None:
+        raise TranslatorError(f"{fn.name}: no return")
+    return result[0], params, result[1]
+
+
+def class_literal(cls_name, m, known, mode):
+    """`get_compact_qobj` of a gate class that returns a literal matrix in `self.arg_value` (RZX)
+    -> (dim, params, argument spec, term)"""
+    params, argspec, env = [], "arg", {}
+    for st in m.body:
+        if isinstance(st, ast.Expr) and isinstance(st.value, ast.Constant):
+            continue
+        if isinstance(st, ast.Assign) and len(st.targets) == 1:
+            t, v = st.targets[0], st.value
+            is_arg = isinstance(v, ast.Attribute) and v.attr == "arg_value" and isinstance(v.value, ast.Name) \
+                and v.value.id == "self"
+            if is_arg and isinstance(t, ast.Name):
+                params, argspec = [t.id], "arg"
+                continue
+            if is_arg and isinstance(t, ast.Tuple) and all(isinstance(x, ast.Name) for x in t.elts):
+                params, argspec = [x.id for x in t.elts], "*arg"
+                continue
+            if isinstance(t, ast.Name):
+                env[t.id] = v
+                continue
+        if isinstance(st, ast.Return):
+            d, term = Tr(params, known, mode, env).matrix(st.value)
+            return d, params, argspec, term
+        raise TranslatorError(f"class {cls_name}: statement " + ast.dump(st)[:80])
+    raise TranslatorError(f"class {cls_name}: no return")
+
+
+def translate_extra(known):
+    """list-built gate functions (cphase) and literal class methods (RZX) -> definitions for Gen/GateExtra.lean and
+    GateDefsF.lean; extends `known`"""
+    path = os.path.join(REPO, "src", "qutip_qip", "operations", "gates.py")
+    fns = parse_functions(open(path).read())
+    defs, defsF, extra = [], [], {}
+    for name in BUILT_FUNCS:
+        fn = fns.get(name)
+        if fn is None:
+            raise TranslatorError(f"gate function {name} not found in gates.py")
+        d, params, term = translate_built(fn, known, "C")
+        _, _, termF = translate_built(fn, known, "F")
+        extra[name] = (d, params, "fn")
+        defs.append((name, d, params, term))
+        defsF.append((name, params, termF))
+    path = os.path.join(REPO, "src", "qutip_qip", "operations", "gateclass.py")
+    tree = ast.parse(open(path).read())
+    lit_specs = {}
+    for node in tree.body:
+        if not isinstance(node, ast.ClassDef) or node.name == "Gate":
+            continue
+        for m in node.body:
+            if isinstance(m, ast.FunctionDef) and m.name == "get_compact_qobj":
+                r = m.body[-1]
+                if isinstance(r, ast.Return) and isinstance(r.value, ast.Call) and isinstance(r.value.func, ast.Name) \
+                        and r.value.func.id == "Qobj":
+                    d, params, argspec, term = class_literal(node.name, m, known, "C")
+                    _, _, _, termF = class_literal(node.name, m, known, "F")
+                    fname = "cls_" + node.name
+                    extra[fname] = (d, params, "cls")
+                    lit_specs[node.name] = f"{fname}({argspec})"
+                    defs.append((fname, d, params, term))
+                    defsF.append((fname, params, termF))
+    out, outF = [], []
+    for name, d, params, term in defs:
+        sig = "".join(f" ({p} : ℝ)" for p in params)
+        out.append(f"noncomputable def {name}_{sig} : Matrix (Fin {d}) (Fin {d}) ℂ :=\n  {term}\n")
+    for name, params, termF in defsF:
+        sigF = "".join(f" ({p} : Float)" for p in params)
+        outF.append(f"def {name}_{sigF} : List (List CF) :=\n  {termF}\n")
+    for k, (d, params, _) in extra.items():
+        known[k] = (d, params)
+    return out, outF, extra, lit_specs
+
+
+def circuit_dispatch():
+    """`QubitCircuit.add_gate(name, …)`: `GATE_CLASS_MAP[name]` if the name is in the map, else the generic `Gate`"""
+    path = os.path.join(REPO, "src", "qutip_qip", "circuit", "circuit.py")
+    tree = ast.parse(open(path).read())
+    for node in ast.walk(tree):
+        if isinstance(node, ast.FunctionDef) and node.name == "add_gate":
+            for st in ast.walk(node):
+                if isinstance(st, ast.If) and isinstance(st.test, ast.Compare) and len(st.test.ops) == 1 \
+                        and isinstance(st.test.ops[0], ast.In) and isinstance(st.test.comparators[0], ast.Name) \
+                        and st.test.comparators[0].id == "GATE_CLASS_MAP" and len(st.body) == 1 and len(st.orelse) == 1:
+                    b, o = st.body[0], st.orelse[0]
+                    ok = (isinstance(b, ast.Assign) and isinstance(b.value, ast.Subscript)
+                          and isinstance(b.value.value, ast.Name) and b.value.value.id == "GATE_CLASS_MAP"
+                          and isinstance(o, ast.Assign) and isinstance(o.value, ast.Name) and o.value.id == "Gate"
+                          and isinstance(b.targets[0], ast.Name) and isinstance(o.targets[0], ast.Name)
+                          and b.targets[0].id == o.targets[0].id)
+                    if ok:
+                        return "class-if-mapped-else-generic"
+    raise TranslatorError("QubitCircuit.add_gate: dispatch on GATE_CLASS_MAP not recognised")
+
+
+def name_chain(lit_specs=None):
+    """`if self.name == "RX": qobj = rx(self.arg_value)` chain of Gate.get_compact_qobj -> {name: call spec};
+    the chain must end in `else: raise` (every other name is refused)"""
     path = os.path.join(REPO, "src", "qutip_qip", "operations", "gateclass.py")
     tree = ast.parse(open(path).read())
     out, classes, class_map = {}, {}, {}
+    lit_specs = lit_specs or {}
 
     def callspec(e):
         # function name + how the arguments are taken from the gate
@@ -240,6 +439,8 @@ def name_chain():
                             if len(cur.orelse) == 1 and isinstance(cur.orelse[0], ast.If):
                                 cur = cur.orelse[0]
                             else:
+                                if not (len(cur.orelse) == 1 and isinstance(cur.orelse[0], ast.Raise)):
+                                    raise TranslatorError("get_compact_qobj chain: the final else does not raise")
                                 break
                     else:
                         r = m.body[-1]
@@ -247,7 +448,7 @@ def name_chain():
                             try:
                                 classes[node.name] = callspec(r.value)
                             except TranslatorError:
-                                classes[node.name] = "special"
+                                classes[node.name] = lit_specs.get(node.name, "special")
         if isinstance(node, ast.Assign) and isinstance(node.targets[0], ast.Name):
             tn = node.targets[0].id
             if tn == "GATE_CLASS_MAP":
@@ -262,6 +463,30 @@ def name_chain():
     return out, classes, class_map
 
 
+def ctrl_compat():
+    """`controlled_gate`: the two compatibility lines `if not isinstance(X, Iterable): controls = [controls]` and
+    `if not isinstance(Y, Iterable): targets = [targets]` -> (X, Y) (the source has X = Y = "targets")"""
+    path = os.path.join(REPO, "src", "qutip_qip", "operations", "gates.py")
+    fn = parse_functions(open(path).read()).get("controlled_gate")
+    if fn is None:
+        raise TranslatorError("controlled_gate not found in gates.py")
+    found = {}
+    for st in fn.body:
+        if isinstance(st, ast.If) and isinstance(st.test, ast.UnaryOp) and isinstance(st.test.op, ast.Not) \
+                and isinstance(st.test.operand, ast.Call) and isinstance(st.test.operand.func, ast.Name) \
+                and st.test.operand.func.id == "isinstance" and len(st.test.operand.args) == 2 \
+                and isinstance(st.test.operand.args[0], ast.Name) and isinstance(st.test.operand.args[1], ast.Name) \
+                and st.test.operand.args[1].id == "Iterable" and len(st.body) == 1 and not st.orelse:
+            b = st.body[0]
+            if isinstance(b, ast.Assign) and isinstance(b.targets[0], ast.Name) and isinstance(b.value, ast.List) \
+                    and len(b.value.elts) == 1 and isinstance(b.value.elts[0], ast.Name) \
+                    and b.value.elts[0].id == b.targets[0].id and b.targets[0].id not in found:
+                found[b.targets[0].id] = st.test.operand.args[0].id
+    if set(found) != {"controls", "targets"} or found["targets"] != "targets" or found["controls"] not in ("controls", "targets"):
+        raise TranslatorError(f"controlled_gate: compatibility lines not recognised ({found})")
+    return found["controls"], found["targets"]
+
+
 def renderF(known, defsF):
     L = ["import QipVerif.Num.CF",
          "/-! GENERATED by py/translate/gates.py — the same gate functions as Gen/GateDefs.lean, rendered from the same",
@@ -274,13 +499,36 @@ def renderF(known, defsF):
         pat = "[" + ", ".join(f"a{i}" for i in range(len(ps))) + "]"
         L.append(f'  | "{name}", {pat} => some ({" ".join([name + "_"] + [f"a{i}" for i in range(len(ps))])})')
     L.append("  | _, _ => none\n")
+    L.append("/-- `controlled_gate`: the argument tested by `isinstance(·, Iterable)` before `controls = [controls]` -/")
+    L.append(f'def ctrlCompatTest : String := "{ctrl_compat()[0]}"\n')
     L.append("end QipVerif.Gen.GF")
+    return "\n".join(L) + "\n"
+
+
+def render_extra(defsX, lit_specs):
+    L = ["import QipVerif.Gen.GateDefs",
+         "import QipVerif.Lemmas.GateKron",
+         "/-! GENERATED by py/translate/gates.py from /repo/src/qutip_qip/operations/{gates,gateclass}.py — do not edit.",
+         "Gates that are not a literal matrix in a gate function: `cphase` (built as tensor(list1) + tensor(list2),",
+         "evaluated on its default arguments N=2, control=0, target=1) and gate classes whose `get_compact_qobj`",
+         "returns a literal matrix itself (`cls_<Class>_`). -/",
+         "namespace QipVerif.Gen.G\n"]
+    L += defsX
+    L.append("/-- gate classes listed as \"special\" in `classPath`: class ↦ call specification of its literal matrix -/")
+    L.append("def classLiteral : List (String × String) :=\n  [" +
+             ",\n   ".join(f'("{k}", "{v}")' for k, v in lit_specs.items()) + "]\n")
+    L.append("end QipVerif.Gen.G")
     return "\n".join(L) + "\n"
 
 
 def render():
     known, defs, defsF = translate_gates()
-    chain, classes, class_map = name_chain()
+    defsX, defsXF, extra, lit_specs = translate_extra(known)
+    defsF = defsF + defsXF
+    chain, classes, class_map = name_chain(lit_specs)
+    render.extra_src = render_extra(defsX, lit_specs)
+    render.extra = extra
+    render.dispatch = circuit_dispatch()
     L = ["import Mathlib.Analysis.SpecialFunctions.Trigonometric.Basic",
          "import Mathlib.Analysis.SpecialFunctions.Sqrt",
          "import Mathlib.LinearAlgebra.Matrix.Notation",
@@ -293,9 +541,15 @@ def render():
              ",\n   ".join(f'("{k}", "{v}")' for k, v in chain.items()) + "]\n")
     L.append("/-- `GATE_CLASS_MAP[name](…).get_compact_qobj()`: name ↦ call specification of the class -/")
     L.append("def classPath : List (String × String) :=\n  [" +
-             ",\n   ".join(f'("{k}", "{classes.get(v, "?")}")' for k, v in class_map.items()) + "]\n")
+             ",\n   ".join(f'("{k}", "{table_spec(classes.get(v, "?"))}")' for k, v in class_map.items()) + "]\n")
     L.append("end QipVerif.Gen.G")
     return "\n".join(L) + "\n", renderF(known, defsF), known, chain, classes, class_map
+
+
+def table_spec(spec):
+    """in the table of Gen/GateDefs.lean a class with a literal matrix is listed as "special"; its definition and call
+    specification are in Gen/GateExtra.lean (`classLiteral`)"""
+    return "special" if spec.startswith("cls_") else spec
 
 
 def spec_to_lean(spec, known, alias):
@@ -320,31 +574,42 @@ def spec_to_lean(spec, known, alias):
     return None
 
 
-def render_paths(known, chain, classes, class_map):
-    # functions that just return a qutip constant: x_gate() == sigmax()
+def render_paths(known, chain, classes, class_map, dispatch):
     alias = {}
-    L = ["import QipVerif.Gen.GateDefs", "import QipVerif.Lemmas.GatePathTac",
+    L = ["import QipVerif.Gen.GateDefs", "import QipVerif.Gen.GateExtra", "import QipVerif.Lemmas.GatePathTac",
          "/-! GENERATED by py/translate/gates.py — for every gate name offered both by `Gate(name)` and by",
-         "`GATE_CLASS_MAP[name]`, the two paths denote the same matrix for all parameter values. -/",
+         "`GATE_CLASS_MAP[name]`, the two paths denote the same matrix for all parameter values; the names both paths",
+         "offer (`sharedNames`, checked against the tables) and the dispatch rule of `QubitCircuit.add_gate`. -/",
          "namespace QipVerif.Gen.G\nopen QipVerif.GatePath\n"]
-    names = []
-    skipped = []
+    names, shared = [], []
     for name, cls in class_map.items():
-        g = chain.get(name)
         c = classes.get(cls)
+        if c in (None, "special", "?"):
+            raise TranslatorError(f"GATE_CLASS_MAP[{name!r}] = {cls}: get_compact_qobj of the class is not recognised")
+        g = chain.get(name)
         if g is None or g == "raise":
             continue
-        a = spec_to_lean(g, known, alias) if g else None
-        b = spec_to_lean(c, known, alias) if c else None
-        if a is None or b is None or a[1] != b[1]:
-            skipped.append((name, g, c))
-            continue
+        a = spec_to_lean(g, known, alias)
+        b = spec_to_lean(c, known, alias)
+        if a is None or b is None or a[1] != b[1] or a[2] != b[2]:
+            raise TranslatorError(f"gate {name}: offered by both lookup paths but not translatable "
+                                  f"(generic {g!r}, class {c!r})")
         ident = "".join(ch if ch.isalnum() else "_" for ch in name)
         sig = "".join(f" (a{i} : ℝ)" for i in range(a[1]))
         L.append(f"theorem path_{ident}{sig} : {a[0]} = {b[0]} := by gate_path_tac\n")
         names.append(f"QipVerif.Gen.G.path_{ident}")
+        shared.append(name)
+    L.append("/-- the names for which a `path_*` theorem above was generated -/")
+    L.append("def sharedNames : List String :=\n  [" + ", ".join(f'"{n}"' for n in shared) + "]\n")
+    L.append("/-- `sharedNames` are exactly the names of the class table that the generic chain resolves to a matrix -/")
+    L.append("theorem shared_names_complete :\n    (classPath.filter fun p => match genericPath.lookup p.1 with\n"
+             "      | some s => s != \"raise\"\n      | none => false).map Prod.fst = sharedNames := by decide\n")
+    names.append("QipVerif.Gen.G.shared_names_complete")
+    L.append("/-- `QubitCircuit.add_gate(name, …)` builds `GATE_CLASS_MAP[name](…)` when the name is in the map and the generic\n"
+             "`Gate(name, …)` otherwise (extracted from circuit.py) -/")
+    L.append(f'def circuitDispatch : String := "{dispatch}"\n')
     L.append("end QipVerif.Gen.G")
-    return "\n".join(L) + "\n", names, skipped
+    return "\n".join(L) + "\n", names, []
 
 
 def regenerate():
@@ -352,8 +617,10 @@ def regenerate():
     src, srcF, known, chain, classes, class_map = render()
     changed = write_if_changed(os.path.join(LEAN, "QipVerif", "Gen", "GateDefs.lean"), src)
     changed |= write_if_changed(os.path.join(LEAN, "QipVerif", "Gen", "GateDefsF.lean"), srcF)
-    psrc, pnames, skipped = render_paths(known, chain, classes, class_map)
+    changed |= write_if_changed(os.path.join(LEAN, "QipVerif", "Gen", "GateExtra.lean"), render.extra_src)
+    psrc, pnames, skipped = render_paths(known, chain, classes, class_map, render.dispatch)
     changed |= write_if_changed(os.path.join(LEAN, "QipVerif", "Gen", "GatePaths.lean"), psrc)
     regenerate.path_theorems = pnames
     regenerate.path_skipped = skipped
+    regenerate.extra = render.extra
     return changed, known, chain, classes, class_map
